@@ -578,6 +578,34 @@ def u_xy_setters(root):
                     ("EVERY source of this axis, enabled or not, refers to the new values (relative ones drop their cached absolute covariance); sources of the other axis are untouched", repointed_upto(s, ESlen))]
         c.ensures.append(post)
         eng.verify("XYContainer", name, "setter", lambda e, st, me_, name=name: {"new_" + name: newv}, contract=c)
+    # XYContainer.data setter (whole-data assignment): every source is re-pointed to the row of ITS OWN axis
+    newd = VMat(z3.Const("new_data", arr(I, arr(I, R))), z3.IntVal(2), z3.Int("new_data_cols"))
+    nd = newd.cols
+    c = Contract("XYContainer", "data", "setter")
+    c.requires.append(lambda vw: z3.And(nd >= 0, nd != 2, ESlen >= 0, errlib.distinct_sources(vw.pre, ES, ESlen), z3.ForAll([b_], z3.Implies(z3.And(0 <= b_, b_ < ESlen), z3.Or(AX[ES[b_]] == 0, AX[ES[b_]] == 1)))))
+
+    def d_upto(s, k):
+        RK, RA, RL = s.h("_reference", "callref", "kind"), s.h("_reference", "callref", ""), s.h("_reference", "callref", "len")
+        CM, ISREL = s.h("_cov_mat", "ref"), H("_is_relative", "bool")
+        return z3.ForAll([b_], z3.Implies(z3.And(0 <= b_, b_ < k), z3.And(RK[ERR[ES[b_]]] == 1, RL[ERR[ES[b_]]] == nd,
+                         z3.ForAll([a_], z3.Implies(z3.And(0 <= a_, a_ < nd), RA[ERR[ES[b_]]][a_] == z3.If(AX[ES[b_]] == 0, newd.at(0, a_), newd.at(1, a_)))), z3.Implies(ISREL[ERR[ES[b_]]], CM[ERR[ES[b_]]] == NULL))))
+
+    def d_inv(e, s):
+        k = s.locals["#i0"].e
+        D = e.read_field(s, s.locals["self"], "_data")
+        return z3.And(0 <= k, k <= ESlen, D.rows == 2, D.cols == nd, z3.ForAll([a_], z3.Implies(z3.And(0 <= a_, a_ < nd), z3.And(D.at(0, a_) == newd.at(0, a_), D.at(1, a_) == newd.at(1, a_)))),
+                      s.h("_error_dicts", "namemap") == H("_error_dicts", "namemap"), s.h("err", "ref") == ERR, s.h("axis", "int") == AX, s.h("_is_relative", "bool") == H("_is_relative", "bool"), s.h("enabled", "bool") == H("enabled", "bool"),
+                      d_upto(s, k))
+    c.loops[0] = d_inv
+
+    def d_post(vw):
+        if vw.flow == "raise":
+            return [("a 2 x N array is accepted", z3.BoolVal(False))]
+        s = vw.post
+        return [("cached totals dropped", F(vw, s, "_total_error").none),
+                ("EVERY source, enabled or not, refers to the new values of ITS OWN axis (x sources to the x row, y sources to the y row); relative ones drop their cached absolute covariance", d_upto(s, ESlen))]
+    c.ensures.append(d_post)
+    eng.verify("XYContainer", "data", "setter", lambda e, st, me_: {"new_data": newd}, contract=c)
     # XYParametricModel.x setter: a NEW data array (possibly of another length) - the x sources must follow it as they do in the container
     eng.schema["XYParametricModel"] = {"_pm_calculation_stale": BOOL}
     newx = VSeq.fresh("new_support")
